@@ -1064,6 +1064,32 @@ func suiteC12(s *Shard, n int) {
 		x0, y0 := r.Coord(), r.Coord()
 		vb := ivg.ViewBox{MinX: x0, MinY: y0, MaxX: x0 + pos(), MaxY: y0 + pos()}
 		dx, dy := pos(), pos()
+		mant := func() float32 { return 1 + float32(r.Intn(1<<20))/(1<<20) }
+		switch r.Intn(8) {
+		case 0:
+			// many orders of magnitude: the viewBox and the target around a common magnitude 2^m, so that the
+			// aspect ratios stay moderate while every product of two sizes leaves float32's range
+			m := r.Intn(160) - 95
+			sz := func() float32 { return float32(math.Ldexp(float64(mant()), m+r.Intn(5)-2)) }
+			vb = ivg.ViewBox{MinX: 0, MinY: 0, MaxX: sz(), MaxY: sz()}
+			dx, dy = sz(), sz()
+		case 1:
+			// very elongated viewBox AND target (both tall or both wide), with different ratios
+			e1, e2 := 15+r.Intn(25), 15+r.Intn(25)
+			m := r.Intn(20) - 10
+			long, short1, short2 := float32(math.Ldexp(float64(mant()), m)), float32(math.Ldexp(float64(mant()), m-e1)), float32(math.Ldexp(float64(mant()), m-e2))
+			if r.Bool() {
+				vb = ivg.ViewBox{MinX: x0, MinY: y0, MaxX: x0 + short1, MaxY: y0 + long}
+				dx, dy = short2, long*mant()
+			} else {
+				vb = ivg.ViewBox{MinX: x0, MinY: y0, MaxX: x0 + long, MaxY: y0 + short1}
+				dx, dy = long*mant(), short2
+			}
+			if vb.MaxX == vb.MinX || vb.MaxY == vb.MinY {
+				vb.MinX, vb.MinY = 0, 0
+				vb.MaxX, vb.MaxY = vb.MaxX-x0, vb.MaxY-y0
+			}
+		}
 		ax, ay := []float32{0, 0.5, 1, float32(r.Intn(101)) / 100}[r.Intn(4)], []float32{0, 0.5, 1, float32(r.Intn(101)) / 100}[r.Intn(4)]
 		mode := []string{"meet", "slice", "size"}[r.Intn(3)]
 		line := FitCase(mode, vb, dx, dy, ax, ay)
@@ -1095,28 +1121,46 @@ func monitorFit(line, mode string, vb ivg.ViewBox, dx, dy, ax, ay float32) (fail
 	}
 	x0, y0, x1, y1 := float64(a), float64(b), float64(c), float64(d)
 	W, H := float64(dx), float64(dy)
-	// float32 rounding relative to the target size (for slice the rectangle may be far larger than the target)
-	tol := 1e-5 * (W + H + abs64(x0) + abs64(x1) + abs64(y0) + abs64(y1))
+	// the rectangle the property describes, in float64: uniform scale min (meet) or max (slice) of the two
+	// ratios, so that one dimension equals the target's; slack divided by the alignment fractions
+	sc := math.Min(W/vw, H/vh)
+	if mode != "meet" {
+		sc = math.Max(W/vw, H/vh)
+	}
+	ew, eh := vw*sc, vh*sc
+	if W/vw == sc {
+		ew = W
+	}
+	if H/vh == sc {
+		eh = H
+	}
+	ex0, ey0 := (W-ew)*float64(ax), (H-eh)*float64(ay)
+	ex1, ey1 := ex0+ew, ey0+eh
+	if math.IsInf(ew+eh, 0) || math.IsNaN(ew+eh) || ew > 1e37 || eh > 1e37 || ew < 1e-37 || eh < 1e-37 {
+		return nil // the fitted rectangle itself is outside float32's range
+	}
+	// "up to float32 rounding relative to the target size", per dimension (the fitted rectangle of a slice
+	// may be far larger than the target, so its own extent counts too)
+	tolX := 1e-5 * (W + abs64(ex0) + abs64(ex1))
+	tolY := 1e-5 * (H + abs64(ey0) + abs64(ey1))
 	w, h := x1-x0, y1-y0
-	// aspect ratio
-	// up to float32 rounding relative to the target size: an error of tol in w or h
-	if abs64(w*vh-h*vw) > tol*(vw+vh) {
-		fails = append(fails, Failure{"C12.aspect", line, fmt.Sprintf("w/h=%g, viewBox %g", w/h, vw/vh)})
+	if abs64(w-ew) > tolX || abs64(h-eh) > tolY {
+		fails = append(fails, Failure{"C12.aspect", line, fmt.Sprintf("size %g x %g, the viewBox's aspect ratio fitted to the target gives %g x %g", w, h, ew, eh)})
 	}
 	if mode == "meet" {
-		if x0 < -tol || y0 < -tol || x1 > W+tol || y1 > H+tol {
+		if x0 < -tolX || y0 < -tolY || x1 > W+tolX || y1 > H+tolY {
 			fails = append(fails, Failure{"C12.meet-inside", line, fmt.Sprintf("(%g,%g)-(%g,%g) not inside %gx%g", x0, y0, x1, y1, W, H)})
 		}
 	} else {
-		if x0 > tol || y0 > tol || x1 < W-tol || y1 < H-tol {
+		if x0 > tolX || y0 > tolY || x1 < W-tolX || y1 < H-tolY {
 			fails = append(fails, Failure{"C12.slice-covers", line, fmt.Sprintf("(%g,%g)-(%g,%g) does not cover %gx%g", x0, y0, x1, y1, W, H)})
 		}
 	}
-	if abs64(w-W) > tol && abs64(h-H) > tol {
+	if abs64(w-W) > tolX && abs64(h-H) > tolY {
 		fails = append(fails, Failure{"C12.touches", line, "equal to the target in neither dimension"})
 	}
-	if abs64(x0-(W-w)*float64(ax)) > tol || abs64(y0-(H-h)*float64(ay)) > tol {
-		fails = append(fails, Failure{"C12.alignment", line, fmt.Sprintf("min (%g,%g), slack (%g,%g), align (%g,%g)", x0, y0, W-w, H-h, ax, ay)})
+	if abs64(x0-ex0) > tolX || abs64(y0-ey0) > tolY {
+		fails = append(fails, Failure{"C12.alignment", line, fmt.Sprintf("min (%g,%g), expected (%g,%g): slack (%g,%g) divided by (%g,%g)", x0, y0, ex0, ey0, W-ew, H-eh, ax, ay)})
 	}
 	return
 }
